@@ -804,3 +804,188 @@ func ruleFontSizeInputs(c *eng.Ctx) {
 	c.Check(len(bad) == 0 && base && uses, R, "graphicsstate.(*GraphicsState).GetEffectiveFontSize", fn.Pos(), "size = f(FontSize, TextMatrix)",
 		"the reported font size depends on "+strings.Join(bad, ", ")+" (or no longer on FontSize and the text matrix): text that differs only in spacing/scaling parameters gets different sizes and heights")
 }
+
+// R15.4 [C15]
+func ruleHeadingBeforeList(c *eng.Ctx) {
+	const R = "R15.4-HEADING-BEFORE-LIST"
+	c.Rule(R, "in the docx and odt Markdown writers a paragraph is written as a list item only after it was found not to be a heading: a numbered heading (heading style plus numbering properties) stays a heading with its level", 4, 0)
+	for _, fn := range c.P.ModuleFuncs() {
+		if fn.Pkg == nil {
+			continue
+		}
+		sp := eng.ShortPath(fn.Pkg.Pkg.Path())
+		if sp != "docx" && sp != "odt" {
+			continue
+		}
+		n := 0
+		for _, ci := range eng.Calls(fn, false, func(nm string, _ ssa.CallInstruction) bool { return strings.HasSuffix(nm, ").writeMarkdownListItem") }) {
+			n++
+			notHeading := eng.GuardedBy(fn, ci.Block(), func(f eng.Fact) bool {
+				if f.Pos {
+					return false
+				}
+				fr, ok := eng.LoadOfField(f.Cond)
+				return ok && fr.Field == "IsHeading"
+			})
+			c.Check(notHeading, R, fmt.Sprintf("%s#list-item%d", eng.FuncName(fn), n), ci.Pos(), "list item only when not a heading",
+				"a paragraph can be written as a list item without having been tested for being a heading: a numbered heading loses its '#' marker and level")
+		}
+	}
+}
+
+// R15.5 [C15, C12, C19]
+func ruleRowCellsComplete(c *eng.Ctx) {
+	const R = "R15.5-ROW-CELLS-COMPLETE"
+	c.Rule(R, "a table renderer writes every cell of every row: a loop that reads row[j] runs up to that row's own length, or up to a column count accumulated over all rows — never up to the length of one fixed row (the first), which silently drops the surplus cells of a wider row", 8, 0)
+	for _, root := range c.P.ModuleFuncs() {
+		if root.Name() != "ToMarkdown" || root.Signature.Recv() == nil || root.Pkg == nil {
+			continue
+		}
+		rt := root.Signature.Recv().Type()
+		if pt, ok := rt.(*types.Pointer); ok {
+			rt = pt.Elem()
+		}
+		st, ok := rt.Underlying().(*types.Struct)
+		if !ok {
+			continue
+		}
+		hasRows := false
+		for i := 0; i < st.NumFields(); i++ {
+			if st.Field(i).Name() == "Rows" {
+				hasRows = true
+			}
+		}
+		if !hasRows {
+			continue
+		}
+		cluster := eng.Cluster(root, 2)
+		n := 0
+		seenIA := map[*ssa.IndexAddr]bool{}
+		for _, fn := range cluster {
+			if fn.Pkg != root.Pkg {
+				continue
+			}
+			eng.Instrs(fn, true, func(in ssa.Instruction) {
+				ia, ok := in.(*ssa.IndexAddr)
+				if !ok || seenIA[ia] {
+					return
+				}
+				seenIA[ia] = true
+				fn := ia.Parent()
+				// a row: a slice of cell structs (with a Text field) or of strings
+				sl, ok := ia.X.Type().Underlying().(*types.Slice)
+				if !ok {
+					return
+				}
+				isCell := false
+				switch et := sl.Elem().Underlying().(type) {
+				case *types.Struct:
+					for i := 0; i < et.NumFields(); i++ {
+						if et.Field(i).Name() == "Text" || et.Field(i).Name() == "Value" {
+							isCell = true
+						}
+					}
+				case *types.Basic:
+					isCell = et.Kind() == types.String
+				}
+				if !isCell {
+					return
+				}
+				ph, isInd := eng.Induction(ia.Index)
+				if !isInd {
+					return
+				}
+				// the loop bound of the induction variable
+				var bound ssa.Value
+				for _, cand := range []ssa.Value{ph, ia.Index} {
+					for _, r := range *cand.Referrers() {
+						if b, ok := r.(*ssa.BinOp); ok && b.Op == token.LSS && b.X == cand && bound == nil {
+							if _, isIf := lastIf(b.Block()); isIf && eng.InLoop(b.Block()) {
+								bound = b.Y
+							}
+						}
+					}
+				}
+				if bound == nil {
+					return
+				}
+				n++
+				key := fmt.Sprintf("%s#cells%d", eng.FuncName(fn), n)
+				if call, ok := bound.(*ssa.Call); ok && eng.CalleeName(call) == "builtin:len" && eng.SameValue(call.Call.Args[0], ia.X) {
+					c.Ok(R, key, ia.Pos(), "runs to the row's own length")
+					return
+				}
+				acc, fixed := false, false
+				for v := range sliceWithFreeVars(bound, cluster) {
+					switch x := v.(type) {
+					case *ssa.Phi:
+						if isLoopCarried(x) {
+							if _, isI := eng.Induction(x); !isI {
+								acc = true
+							}
+						}
+					case *ssa.Call:
+						if eng.CalleeName(x) != "builtin:len" {
+							continue
+						}
+						if ld, ok := x.Call.Args[0].(*ssa.UnOp); ok && ld.Op == token.MUL {
+							if ra, ok := ld.X.(*ssa.IndexAddr); ok {
+								if _, isC := eng.ConstInt(ra.Index); isC {
+									fixed = true
+								}
+							}
+						}
+					}
+				}
+				c.Check(acc || !fixed, R, key, ia.Pos(), "bound is accumulated over all rows",
+					"the cells of a row are written up to the length of one fixed row: a row wider than that one loses its surplus cells")
+			})
+		}
+	}
+}
+
+// sliceWithFreeVars is eng.SliceInter that also follows the free variables of closures to the values the
+// enclosing function stores in the captured cells.
+func sliceWithFreeVars(v ssa.Value, cluster []*ssa.Function) map[ssa.Value]bool {
+	out := map[ssa.Value]bool{}
+	work := []ssa.Value{v}
+	for round := 0; round < 8 && len(work) > 0; round++ {
+		var next []ssa.Value
+		for _, w := range work {
+			for x := range eng.SliceInter(w, func(*ssa.Call) bool { return true }, cluster) {
+				if out[x] {
+					continue
+				}
+				out[x] = true
+				fv, ok := x.(*ssa.FreeVar)
+				if !ok || fv.Parent() == nil || fv.Parent().Parent() == nil {
+					continue
+				}
+				anon := fv.Parent()
+				idx := -1
+				for i, f := range anon.FreeVars {
+					if f == fv {
+						idx = i
+					}
+				}
+				eng.Instrs(anon.Parent(), true, func(in ssa.Instruction) {
+					mc, ok := in.(*ssa.MakeClosure)
+					if !ok || mc.Fn != ssa.Value(anon) || idx < 0 || idx >= len(mc.Bindings) {
+						return
+					}
+					cell := mc.Bindings[idx]
+					next = append(next, cell)
+					if refs := cell.Referrers(); refs != nil {
+						for _, r := range *refs {
+							if st, ok := r.(*ssa.Store); ok && st.Addr == cell {
+								next = append(next, st.Val)
+							}
+						}
+					}
+				})
+			}
+		}
+		work = next
+	}
+	return out
+}
